@@ -81,7 +81,14 @@ def run(v, tier, replay):
         raise lib.Inconclusive("scenario enumeration too small: %d / %d" % (len(s2), len(s3)))
     v.cov["scenarios_enumerated_2"] = len(s2); v.cov["scenarios_enumerated_3"] = len(s3)
     rng = random.Random(lib.seed())
-    scs = s2 + (s3 if thorough else rng.sample(s3, 1500))
+    # scenarios with a slow target cost 6 s of real time each: a handful in the quick tier, more in the thorough one
+    slow = lambda b: any(c["tbeh"] == "slowconfirm" for c in b["sc"])
+    s2slow = [b for b in s2 if slow(b)]; s3slow = [b for b in s3 if slow(b)]
+    s2 = [b for b in s2 if not slow(b)]; s3 = [b for b in s3 if not slow(b)]
+    keep = [b for b in s2slow if b["sc"][0]["tclass"] == "base" and len(b["sc"]) == 2 and b["sc"][1]["tclass"] == "base"]
+    slowpick = keep[:8] + rng.sample(s2slow, min(len(s2slow), 4)) + (rng.sample(s3slow, min(len(s3slow), 80)) + s2slow if thorough else [])
+    v.cov["slow_target_scenarios"] = len(slowpick)
+    scs = slowpick + s2 + (s3 if thorough else rng.sample(s3, 1500))
     for i, b in enumerate(scs):
         b["id"] = i
     binp = lib.go_build("c06")
